@@ -257,10 +257,22 @@ func (s *Sim) checkPreControl(v *recView) {
 	}
 	freshOK := false // a successful uncached GET of the set with the same UID and no deletionTimestamp
 	freshSeen := false
+	// what this reconcile knew about deletion *before* each call: the cached set,
+	// then every uncached read that preceded the call
+	deletingNow := cs.DeletionTimestamp != nil
+	seenRev := map[string]*appsv1.ControllerRevision{} // revisions as this reconcile last saw them
 	for _, c := range rec.Calls[:end] {
+		if c.Kind == KRev && c.Err == nil {
+			for _, o := range c.OutList {
+				seenRev[o.GetName()] = o.(*appsv1.ControllerRevision)
+			}
+		}
 		switch {
 		case c.Kind == KSet && c.Verb == "get":
 			freshSeen = true
+			if c.Err == nil && c.Out != nil && c.Out.GetUID() == cs.UID && c.Out.GetDeletionTimestamp() != nil {
+				deletingNow = true
+			}
 			if c.Err == nil && c.Out != nil && c.Out.GetUID() == cs.UID && c.Out.GetDeletionTimestamp() == nil {
 				freshOK = true
 			} else {
@@ -281,7 +293,7 @@ func (s *Sim) checkPreControl(v *recView) {
 				parent = m[1]
 			}
 			match := selErr == nil && sel.Matches(labels.Set(p.Labels)) && parent == cs.Name
-			if v.deleting {
+			if deletingNow {
 				s.violate("C11", "C11.deleting-adoption", "pod-"+map[bool]string{true: "adopt", false: "release"}[adopt], fmt.Sprintf("set %s is being deleted but pod %s was patched (%s)", cs.Name, c.Name, string(c.Patch)))
 			}
 			if adopt {
@@ -322,15 +334,19 @@ func (s *Sim) checkPreControl(v *recView) {
 			}
 		case c.Kind == KRev && c.IsWrite():
 			// label sync (update) or adoption (patch) of revisions
-			pre := c.Pre
-			var ref = (*struct{ UID types.UID })(nil)
-			_ = ref
-			if pre != nil {
+			// judged on the revision as this reconcile last saw it (its listing),
+			// not on what it has become since
+			if pre := seenRev[c.Name]; pre != nil {
 				if r := controllerOf(pre); r != nil && r.UID != cs.UID {
 					s.violate("C10", "C10.foreign-touched", "revision-"+c.Verb, fmt.Sprintf("%s on revision %s controlled by %s %s", c.Verb, c.Name, r.Kind, r.UID))
 				}
+			} else {
+				s.violate("C10", "C10.foreign-touched", "revision-unlisted-"+c.Verb, fmt.Sprintf("%s on revision %s which this reconcile never listed", c.Verb, c.Name))
 			}
-			if v.deleting {
+			if c.Err == nil && c.Out != nil {
+				seenRev[c.Name] = c.Out.(*appsv1.ControllerRevision)
+			}
+			if deletingNow {
 				s.violate("C11", "C11.deleting-adoption", "revision-"+c.Verb, fmt.Sprintf("set %s is being deleted but revision %s was written (%s)", cs.Name, c.Name, c.Verb))
 			}
 			if c.Verb == "patch" {
@@ -946,6 +962,9 @@ func (s *Sim) checkRevisions(v *recView) {
 	}
 	// rollback re-use: the update revision carries the highest revision number
 	for _, r := range v.listed {
+		if ref := controllerOf(r); ref == nil || ref.UID != set.UID {
+			continue // not part of this set's history
+		}
 		if r.Name != upd.Name && r.Revision > upd.Revision {
 			s.violate("C08", "C08.rollback-reuse", "not-highest", fmt.Sprintf("updateRevision %s has revision %d but %s has %d", upd.Name, upd.Revision, r.Name, r.Revision))
 			break
@@ -954,11 +973,19 @@ func (s *Sim) checkRevisions(v *recView) {
 	// non-template edits keep the update revision
 	key := string(set.UID)
 	if last, ok := s.oracles.lastUpdRev[key]; ok && last.tmpl == v.tmpl && last.rev != upd.Name {
-		if _, still := v.listedN[last.rev]; still {
+		// a duplicate revision injected by somebody else is not an edit of the set:
+		// only a revision the controller itself created since then counts
+		createdSince := false
+		for _, c := range s.Calls {
+			if c.Seq > last.seq && c.Kind == KRev && c.Verb == "create" && c.Err == nil && c.Out != nil && c.Out.GetName() == upd.Name && strings.HasPrefix(c.Actor, "w") {
+				createdSince = true
+			}
+		}
+		if _, still := v.listedN[last.rev]; still && createdSince {
 			s.violate("C08", "C08.non-template-edit", "changed", fmt.Sprintf("template of %s unchanged but updateRevision went %s -> %s", set.Name, last.rev, upd.Name))
 		}
 	}
-	s.oracles.lastUpdRev[key] = updRevObs{tmpl: v.tmpl, rev: upd.Name}
+	s.oracles.lastUpdRev[key] = updRevObs{tmpl: v.tmpl, rev: upd.Name, seq: s.seq}
 	// collision: a create that hit a different revision under the same name must bump collisionCount
 	for i, c := range rec.Calls[rec.CtlCallIdx:] {
 		if c.Kind == KRev && c.Verb == "create" && c.Err != nil && apierrors.IsAlreadyExists(c.Err) {
